@@ -44,6 +44,10 @@ def run(ctx, rep):
     check_undo(fx, rep)
     check_prewarm(fx, rep)
     check_7702(fx, rep)
+    # what a cold / warm access costs: C14's price tables that take the is_cold flag
+    import engine
+    import c14
+    c14.run_access_prices(ctx, engine.SubReport(rep, 'C14'))
     rep.assume('accounts and slots inserted into the journaled state start warm (Account::from / EvmStorageSlot::new carry no Cold flag); only a revert arm sets Cold')
     rep.assume('warm/cold prices are decided by C14')
 
